@@ -193,6 +193,26 @@ theorem source_der_integer_is_x690 (z : Int) (l : Bytes) (hl : encodeLength (int
   rw [identifier_is_x690, length_is_x690 _ l hl, integer_is_x690]
   simp [X690.der, hder, X690.wrap, Option.getD]
 
+/-- the same for OBJECT IDENTIFIER: translated arc encoder, translated header loop = `X690.der` -/
+theorem source_der_oid_is_x690 (arcs : List Nat) (c l : Bytes) (hc : oidToContent arcs = some c)
+    (hl : encodeLength c.length = some l) :
+    GenK.oidEncode (Kernels.ints arcs) = .ok (Kernels.bytesInts c, false, false) ∧
+      GenK.wrapTags false false [[0, 0, 6]] true (Kernels.bytesInts c) false false =
+        .ok (Kernels.bytesInts ((X690.der (.prim .oid) (.oid arcs)).getD [])) := by
+  have hne : c ≠ [] := by
+    intro h0; subst h0
+    have := oidFromContent_oidToContent arcs [] hc
+    simp [oidFromContent] at this
+  refine ⟨by rw [Kernels.oidEncode_kernel, hc]; rfl, ?_⟩
+  have hw := Kernels.wrap_prim_kernel false 6 c l hne hl
+  rw [show ([[0, 0, 6]] : List Py.Tup) = [[0, 0, ((6 : Nat) : Int)]] from rfl, hw]
+  congr 2
+  have hx : X690.oidOctets arcs = some c := by rw [← oid_is_x690]; exact hc
+  have hder : X690.derElem (.prim .oid) (.oid arcs) = some (X690.wrap .universal false 6 c) := by
+    simp [X690.derElem, X690.derBody, PrimTy.univNum, hx]
+  rw [identifier_is_x690, length_is_x690 _ l hl]
+  simp [X690.der, hder, X690.wrap, Option.getD]
+
 /-- non-vacuity: [APPLICATION 16384] constructed; length 300; OID 2.999.3; -5 * 2^3, 12 * 2^298 = 3 * 2^300 (two exponent octets) -/
 example : GenK.realBin (-1) 5 2 3 = .ok [192, 3, 5] := by rfl
 example : GenK.realBin 1 12 2 298 = .ok [129, 1, 44, 3] := by rfl
